@@ -78,7 +78,15 @@ def _dropped_binding_class(codemod, before, after1):
 
 
 def classify(prop, codemod, before, after1, after2):
-    """Finding classes (narrow, decidable on the input)."""
+    """Finding classes (narrow, decidable on the input); text that cannot even be analysed (e.g. surrogate-escaped bytes of a
+    legacy-encoded file) belongs to no known class."""
+    try:
+        return _classify(prop, codemod, before, after1, after2)
+    except (UnicodeError, ValueError, RecursionError):
+        return f"unlisted_{prop}_{codemod.split('/')[-1]}"
+
+
+def _classify(prop, codemod, before, after1, after2):
     name = codemod.split("/")[-1]
     import hashlib
     hit = _input_classes().get((codemod, hashlib.sha1(before.encode("utf-8", "surrogateescape")).hexdigest()[:12]))
